@@ -317,7 +317,7 @@ func (r *Replayer) Run(idx int, b *Behaviour) error {
 }
 
 func (r *Replayer) realCum(abs int, orphan bool) string {
-	v := new(big.Int).Mul(big.NewInt(int64(abs)), WorkUnit)
+	v := new(big.Int).Mul(big.NewInt(int64(abs)), CurUnit)
 	if !orphan {
 		v.Add(v, r.GenWork)
 	}
